@@ -41,7 +41,7 @@ Kinds == {
   K("map-nil-stringer-elems", "record"), K("struct-nil-stringer-fields", "record"),
   K("chan", "coerce"), K("func", "coerce"), K("time", "record-or-coerce"), K("json-number", "coerce"),
   K("json-empty-object", "empty"), K("json-object", "record"), K("json-array", "issue"), K("json-scalar", "issue"), K("json-null", "issue"), K("json-truncated", "issue"),
-  K("form-valid", "record"), K("form-malformed", "issue"), K("query", "record"), K("env", "record") }
+  K("form-valid", "record"), K("form-malformed", "issue"), K("query", "record"), K("env", "record"), K("env-odd-values", "record") }
 
 Schemas == {"string", "string-all-tests", "slice-string-tests", "int", "float", "bool", "time", "slice-int", "slice-struct", "struct", "struct-cap", "struct-long-key", "ptr-struct", "ptr-int", "custom", "preprocess"}
 Positions == {"root", "field", "elem", "behind-ptr"}
